@@ -810,6 +810,9 @@ def run(ctx):
                     for p in dt.get("struct") or []: reach(p["type_id"], fuel - 1)
             for x in e.get("ids") or []: reach(x, fuel - 1)
         if t is not None: reach(t)
+        sch = docs[c.tag] if key == "#" else (docs[c.tag].get("definitions") or docs[c.tag].get("$defs") or {}).get(key, {})
+        if '"const"' in json.dumps({k: v for k, v in sch.items() if k != "definitions"} if isinstance(sch, dict) else sch) \
+                and "C05-const-ignored" in findings: return "C05-const-ignored"
         pairs = shared_variant_types(c.dump)
         for i in seen:
             e = es[i]
